@@ -11,6 +11,8 @@ from vf.effects import Patch, note
 from pony import orm
 from pony.orm import core
 
+from contracts import c20_e2e as E2E
+
 META = dict(
     level='other',
     explanation='BOUNDED stand-in: real functions on a real loaded object; every subset of the model\'s 5 column attributes read / written in both orders, dbval None or a value, '
@@ -206,4 +208,7 @@ CONTRACTS = [
     Contract('stale_write_after_mid_session_commit', ['pony.orm.core:SessionCache.commit', 'pony.orm.core:Entity._save_updated_', 'pony.orm.core:Entity._construct_optimistic_criteria_'],
              _mc_configs, _mc_case, [('locks_of_a_finished_transaction_do_not_exempt_from_the_check', _mc_spec)], level='bounded',
              bound='object created / locked by get_for_update / select().for_update() / plainly read in the first transaction of a session; one foreign change after the commit'),
+    Contract('lost_update_detected', ['pony.orm.core:EntityMeta._set_rbits', 'pony.orm.core:Attribute.__get__', 'pony.orm.core:Entity.to_dict', 'pony.orm.core:Entity._construct_optimistic_criteria_',
+                                      'pony.orm.core:Entity._save_updated_', 'pony.orm.core:EntityMeta._find_in_cache_', 'pony.orm.core:EntityMeta._fetch_objects'], E2E.configs, E2E.case,
+             [('a_foreign_change_of_a_read_attribute_is_detected_when_the_object_is_written', E2E.spec)], level='bounded', bound=E2E.BOUND),
 ]
